@@ -65,6 +65,7 @@ type Path struct {
 	notes  []string
 	envFires int
 	preempts int
+	known    map[*Term]bool // conditions implied by the path condition (monotone: stays valid as pc grows)
 }
 
 type Stats struct {
@@ -88,45 +89,65 @@ type Stats struct {
 	IfConv       int
 }
 
-// Pool is the shared DFS work stack of the workers exploring one harness.
+// Pool holds one DFS stack per worker; an idle worker steals the oldest
+// (shallowest) prefix of another worker, which keeps each solver's assertion
+// stack close to the path it explores next.
 type Pool struct {
 	mu       sync.Mutex
 	cond     *sync.Cond
-	work     []workItem
+	stacks   [][]workItem
 	active   int
 	paths    int
 	maxPaths int
 	overflow bool
 }
 
-func newPool(maxPaths int) *Pool {
-	p := &Pool{maxPaths: maxPaths}
+func newPool(maxPaths, workers int) *Pool {
+	p := &Pool{maxPaths: maxPaths, stacks: make([][]workItem, workers)}
 	p.cond = sync.NewCond(&p.mu)
 	return p
 }
 
-func (p *Pool) push(it workItem) {
+func (p *Pool) push(w int, it workItem) {
 	p.mu.Lock()
-	p.work = append(p.work, it)
+	p.stacks[w] = append(p.stacks[w], it)
 	p.mu.Unlock()
 	p.cond.Signal()
 }
 
 // pop blocks until an item is available or every worker is idle.
-func (p *Pool) pop() (workItem, bool) {
+func (p *Pool) pop(w int) (workItem, bool) {
 	p.mu.Lock()
 	defer p.mu.Unlock()
 	for {
+		pending := 0
+		for _, s := range p.stacks {
+			pending += len(s)
+		}
 		if p.maxPaths > 0 && p.paths >= p.maxPaths {
-			if len(p.work) > 0 {
+			if pending > 0 {
 				p.overflow = true
 			}
 			p.cond.Broadcast()
 			return workItem{}, false
 		}
-		if n := len(p.work); n > 0 {
-			it := p.work[n-1]
-			p.work = p.work[:n-1]
+		if n := len(p.stacks[w]); n > 0 {
+			it := p.stacks[w][n-1]
+			p.stacks[w] = p.stacks[w][:n-1]
+			p.active++
+			p.paths++
+			return it, true
+		}
+		if pending > 0 {
+			// steal the oldest item of the fullest stack
+			best := -1
+			for i, s := range p.stacks {
+				if len(s) > 0 && (best < 0 || len(s) > len(p.stacks[best])) {
+					best = i
+				}
+			}
+			it := p.stacks[best][0]
+			p.stacks[best] = p.stacks[best][1:]
 			p.active++
 			p.paths++
 			return it, true
@@ -228,6 +249,7 @@ func (ex *Explorer) branchAux(cond *Term, aux uint64) bool {
 		d := p.prefix[n]
 		p.taken = append(p.taken, d)
 		side := d.D&1 == 1
+		p.setKnown(cond, side)
 		if d.D&2 == 0 {
 			if side {
 				ex.addPC(cond)
@@ -236,6 +258,10 @@ func (ex *Explorer) branchAux(cond *Term, aux uint64) bool {
 			}
 		}
 		return side
+	}
+	if v, ok := p.lookupKnown(cond); ok {
+		p.taken = append(p.taken, dec{b2i(v) | 2, aux})
+		return v
 	}
 	// new decision: side indicated by the model is feasible for free
 	mv := p.model.Eval(cond) != 0
@@ -249,22 +275,50 @@ func (ex *Explorer) branchAux(cond *Term, aux uint64) bool {
 	switch res {
 	case Sat:
 		alt := append(append([]dec(nil), p.taken...), dec{b2i(!mv), aux})
-		ex.pool.push(workItem{prefix: alt, model: m})
+		ex.pool.push(ex.id, workItem{prefix: alt, model: m})
 	case Unknown:
 		ex.inconclusive("solver unknown at branch: " + strings.Join(ex.solver.lastErrors(), "; "))
 	}
 	if res == Unsat {
 		// implied by the path condition: recorded (for exact re-execution) but no constraint
 		p.taken = append(p.taken, dec{b2i(mv) | 2, aux})
+		p.setKnown(cond, mv)
 		return mv
 	}
 	p.taken = append(p.taken, dec{b2i(mv), aux})
+	p.setKnown(cond, mv)
 	if mv {
 		ex.addPC(cond)
 	} else {
 		ex.addPC(BNot(cond))
 	}
 	return mv
+}
+
+func (p *Path) lookupKnown(c *Term) (bool, bool) {
+	if p.known == nil {
+		return false, false
+	}
+	if v, ok := p.known[c]; ok {
+		return v, true
+	}
+	if c.op == OpBNot {
+		if v, ok := p.known[c.args[0]]; ok {
+			return !v, true
+		}
+	}
+	return false, false
+}
+
+func (p *Path) setKnown(c *Term, v bool) {
+	if p.known == nil {
+		p.known = map[*Term]bool{}
+	}
+	if c.op == OpBNot {
+		p.known[c.args[0]] = !v
+		return
+	}
+	p.known[c] = v
 }
 
 func b2i(b bool) int {
@@ -288,7 +342,7 @@ func (ex *Explorer) choose(n int, label string) int {
 	}
 	for i := n - 1; i >= 1; i-- {
 		alt := append(append([]dec(nil), p.taken...), dec{i, 0})
-		ex.pool.push(workItem{prefix: alt, model: p.model})
+		ex.pool.push(ex.id, workItem{prefix: alt, model: p.model})
 	}
 	p.taken = append(p.taken, dec{0, 0})
 	return 0
@@ -388,6 +442,11 @@ func (ex *Explorer) assert(c *Term, id string, msg string) {
 	if len(p.taken) < len(p.prefix) {
 		// already decided by the path this prefix was forked from (same pc)
 		ex.addPC(c)
+		p.setKnown(c, true)
+		return
+	}
+	if v, ok := p.lookupKnown(c); ok && v {
+		st.AssertsConst++
 		return
 	}
 	st.Asserts++
@@ -404,6 +463,7 @@ func (ex *Explorer) assert(c *Term, id string, msg string) {
 	}
 	// continue under the assumption that it holds
 	ex.assume(c)
+	p.setKnown(c, true)
 }
 
 func (ex *Explorer) violation(id, msg string, m Model) {
@@ -460,7 +520,7 @@ func (ex *Explorer) cover(c *Term, label string) {
 // Run explores paths from the shared pool until it is exhausted.
 func (ex *Explorer) Run(run func()) {
 	for {
-		it, ok := ex.pool.pop()
+		it, ok := ex.pool.pop(ex.id)
 		if !ok {
 			return
 		}
